@@ -44,6 +44,7 @@ ASSUMPTIONS = [
     "variable assignments are the accepted ones of the seed / operator (the reference coercion must accept them too)",
     "shape, not values, is compared for accepted documents: a null with a field error at its path is compatible with any expected value (value equality is C04's oracle)",
     "pairs: a violation is reported only when neither operator alone already produces a violation of the same class on that seed",
+    "pairs: the conflict-among-several and custom-scalar-literal families take part with their structurally distinct members only (all members are applied as single mutants)",
 ]
 BOUNDS = {
     "quick": {"seed_nodes": 2, "mutations": 1, "worlds_per_assignment": 12, "assignments": 4},
@@ -82,9 +83,19 @@ def cases(tier):
         del small
         for i in order:
             name, case = ss[i]
-            n = sum(1 for _ in M.all_mutants(S.SCHEMAS[name], case))
-            for j in range(n):
-                yield {"k": "pair", "t": tier, "seed": i, "m1": j}
+            for j, (_op, _rule, tag, _c) in enumerate(M.all_mutants(S.SCHEMAS[name], case)):
+                if _in_pairs(tag):
+                    yield {"k": "pair", "t": tier, "seed": i, "m1": j}
+
+
+def _in_pairs(tag):
+    """operator variants that take part in PAIRS (all of them are applied as single mutants): the two
+    large families are represented by their structurally distinct members only"""
+    if tag.startswith("conflict-among-several"):
+        return ":three:" in tag and (tag.endswith(":ABn") or tag.endswith(":nAB"))
+    if tag.startswith("custom-scalar-literal"):
+        return tag.split(":")[-1] in ("object", "enum", "list", "variable") and "variable-default" not in tag
+    return True
 
 
 def _nodes(case):
@@ -301,6 +312,8 @@ def check_case(case, st):
         for _op, _rule, tag, c2 in M.all_mutants(sm, c1):
             if st.out_of_time():
                 break
+            if not _in_pairs(tag):
+                continue
             st.n("pairs")
             for cls, detail in evaluate(name, c2, st, b):
                 if singles is None:
